@@ -114,6 +114,31 @@ def gen(tier, rnd):
         for _ in range(rnd.randint(0, 3)): b.settle(again=rnd.random() < .1)
         if rnd.random() < .5 and b.thenable(): b.then()
         L.append(b.line())
+    # Promise<void> sources (separate specialisations of Continuation in async.h): explicit programs - the inner promise of a
+    # promise-returning continuation settles before / after the next continuation is attached - and a void twin of every program
+    # whose first promise is only used through then / resolve / reject
+    L += ['prog newv ; new ; then 0 1 prom:1 rth ; resolve 0 0 ; reject 1 9 ; then 2 2 val:0 cus:3',
+          'prog newv ; new ; then 0 1 prom:1 rth ; then 2 2 val:0 cus:3 ; resolve 0 0 ; reject 1 9',
+          'prog newv ; new ; then 0 1 prom:1 cus:4 ; resolve 0 0 ; resolve 1 5 ; then 2 2 val:1 cus:3',
+          'prog newv ; rej 5 ; then 0 1 prom:1 rth ; resolve 0 0 ; then 2 2 val:0 cus:3 ; then 2 4 val:0 rth ; then 4 5 val:0 cus:6',
+          'prog newv ; res 5 ; then 0 1 prom:1 ign ; resolve 0 0 ; then 2 2 val:2 cus:3',
+          'prog newv ; then 0 1 val:3 rth ; then 0 2 void cus:4 ; reject 0 7 ; then 1 5 val:0 cus:6',
+          'prog newv ; then 0 1 val:3 cus:2 ; resolve 0 0 ; then 0 3 val:4 rth ; then 1 5 val:1 rth',
+          'prog newv ; reject 0 3 ; then 0 1 val:0 rth ; then 1 2 val:0 cus:5 ; resolve 0 0']
+    twins = []
+    for l in L:
+        if not l.startswith('prog new ;'): continue
+        ops = [o.strip() for o in l[5:].split(' ; ')]
+        ok = True
+        for o in ops[1:]:
+            w = o.split()
+            if w[0] in ('all', 'any', 'allr') and '0' in w[1].split(','): ok = False
+            if w[0] == 'then' and w[3] == 'prom:0': ok = False
+        if not ok: continue
+        ops[0] = 'newv'
+        ops = [('resolve 0 0' if o.split()[:2] == ['resolve', '0'] else o) for o in ops]
+        twins.append('prog ' + ' ; '.join(ops))
+    L += twins[::2] if tier == 'quick' else twins
     # the same programs run by a harness that lets go of every handle (promise object, resolver, rejection) right after the
     # last operation naming it, as the temporaries and locals of a C++ program would: lifetimes must not change what runs
     L += ['progd' + l[4:] for l in L if l.startswith('prog ')]
@@ -123,6 +148,7 @@ BAD = ('ASAN', 'UBSAN', 'HANG', 'CRASH', 'TERMINATE', 'MISSING', 'bad-prog')
 
 def oracle(line, out):
     """direct statement of C11 on the implementation's log"""
+    line = line.replace('newv', 'new')      # a Promise<void> source: the same statement (its continuations are logged with argument 0)
     if any(x in out for x in BAD):
         return ('crash', 'implementation aborted/hung or rejected the program: ' + out[:120])
     if line.startswith('allmt'):
